@@ -67,10 +67,12 @@ def _hostile_name(rng, sbx_root_placeholder="@SBX@") -> tuple[str, list[str]]:
     r = rng.random()
     if r < 0.14:
         return rng.choice([f"{sbx_root_placeholder}/host/secret.txt", f"{sbx_root_placeholder}/host/sub/passwd.csv", f"{sbx_root_placeholder}/host/notes.md",
-                           f"{sbx_root_placeholder}/host/new{ext}", "/etc/hostname.txt", "/tmp/evil" + ext]), ["abs"]
+                           f"{sbx_root_placeholder}/host/new{ext}", "/etc/hostname.txt", "/tmp/evil" + ext,
+                           f"{sbx_root_placeholder}/host/newdir/sub/x{ext}", f"{sbx_root_placeholder}/fresh dir/y{ext}"]), ["abs"]
     if r < 0.32:
         depth = rng.choice([1, 2, 2, 3, 5, 12, 40])
-        tgt = rng.choice(["host/secret.txt", "host/sub/passwd.csv", "secret.txt", "tmp_sibling.txt", "cwd/local.txt", "escape" + ext, "host/new" + ext])
+        tgt = rng.choice(["host/secret.txt", "host/sub/passwd.csv", "secret.txt", "tmp_sibling.txt", "cwd/local.txt", "escape" + ext, "host/new" + ext,
+                          "host/made up/dir/z" + ext, "brand_new_dir/w" + ext])
         pre = rng.choice(["", "a/", "a/b/", "./"])
         return pre + "../" * depth + tgt, ["dotdot"]
     if r < 0.38:
@@ -120,6 +122,9 @@ def _gen_archive(rng, tier):
         elif fmt == "7z" and r < 0.22:
             m["kind"] = "ghost"
             m["classes"] = classes + ["ghost"]
+        elif fmt == "7z" and r < 0.30:
+            m["empty"] = True  # a regular 7z entry flagged as an empty file (no stream at all): nothing to write, nothing to create outside
+            m["classes"] = classes + ["empty_file"]
         elif r < 0.28:
             m["kind"] = "dir"
         elif r < 0.34:
